@@ -7,14 +7,72 @@ assignment is expressible as a `Variables` value (deserialization from the Graph
 names succeeds) and that serialization reproduces it *exactly*: same keys, explicit
 nulls without skip_serializing_none, omitted members with it.
 """
+import json
+
+import vp_common as vc
 import krun
 
 PROP = 'C04'
 
 
+def attribute_part(out):
+    """engine M: rename / skip_serializing_if / type nesting / Box decisions for Variables members, input-object fields and
+    @oneOf variants, names and qualifiers symbolic; counterexamples replayed by a consumer-crate round trip"""
+    import mcheck
+    import consumer
+    import kernels as K
+    import C11
+    tier = vc.tier()
+    sc = vc.scratch(PROP + 'm')
+    R = mcheck.MRun(vc.REPO, sc, 'codegen', max_depth=60)
+    q = 1 if tier == 'quick' else 2
+    cands = K.k_variable_field(R, q) + K.k_input_member(R, 'struct', q) + K.k_input_member(R, 'oneof', q)
+    cands = [c for c in cands if c['prop'] in ('C04', 'C13', 'C12')]
+    C = consumer.Consumer(sc)
+    seen = set()
+    replayed = 0
+    for c in cands:
+        if (c['kernel'], c['what']) in seen or len(seen) >= 3:
+            continue
+        seen.add((c['kernel'], c['what']))
+        mdl = c['model']
+        expr = K.graphql_type_expr(mdl['qualifiers'], 'Int' if mdl.get('target', 'S') == 'S' else mdl.get('target'))
+        attrs = 'skip_serializing_none, ' if mdl.get('skip_serializing_none') else ''
+        if c['kernel'] == 'variable_field':
+            schema, query, payload = f'type Query {{ x(a: {expr}): Int }}\n', f'query Q($v: {expr}) {{ x(a: $v) }}\n', {'v': None}
+            want = {} if mdl.get('skip_serializing_none') else {'v': None}
+        else:
+            oneof = ' @oneOf' if c['kernel'].endswith('oneof') else ''
+            schema = f'type Query {{ x(a: I): Int }}\ninput I{oneof} {{ m: {expr} o: Int }}\ninput I1 {{ me: I1 }}\ninput I2 {{ x: Int }}\n'
+            query = 'query Q($v: I!) { x(a: $v) }\n'
+            payload = {'v': {'o': 1}} if oneof else {'v': {'m': None, 'o': None}}
+            want = payload if (oneof or not mdl.get('skip_serializing_none')) else {'v': {}}
+        nullable = not mdl['qualifiers'] or mdl['qualifiers'][0] != 'R'
+        if not nullable and not c['kernel'].endswith('oneof'):
+            out.inconc(f'counterexample on a non-null member needs a value payload (not rendered): {c["what"]} {mdl}')
+            continue
+        err = C.build(schema, query, 'Q', 'q', attrs=attrs)
+        replayed += 1
+        if err:
+            out.violation(f"{c['kernel']}:{c['what']}", f'{c["what"]}: generated code for member of type {expr} does not compile: ' + err[-300:].replace('\n', ' | '), dict(kind='solver', model=mdl, schema=schema, query=query))
+            continue
+        res = C.run('variables', [payload])
+        got = res[0][1].get('variables') if res and res[0][0] == 'ok' else res
+        if got != want:
+            out.violation(f"{c['kernel']}:{c['what']}", f'{c["what"]}: member of type {expr}, skip_serializing_none={mdl.get("skip_serializing_none")}: {json.dumps(payload)} serializes as {json.dumps(got)}, expected {json.dumps(want)}',
+                          dict(kind='solver', model=mdl, schema=schema, query=query, payload=payload))
+        else:
+            out.inconc(f'solver counterexample {c["what"]} {mdl} did not reproduce natively')
+    for w in R.inconclusive:
+        out.inconc(w)
+    ev = R.evidence()
+    ev.update(paths=R.paths, obligations=R.obligations, discharged=R.discharged, replayed=replayed, samples=R.samples[:3])
+    return ev
+
+
 def build(c):
     c.derive_modules(lambda e: e['variants'])
-    c.add_variables_harnesses(PROP, lambda e: e['variants'] if c.tier == 'thorough' else [v for v in e['variants'] if v in ('base', 'skip', 'rustskip')])
+    c.add_variables_harnesses(PROP, lambda e: e['variants'] if c.tier == 'thorough' else [v for v in e['variants'] if v in ('base', 'skip')])
 
 
 def main():
@@ -26,4 +84,4 @@ def main():
                      'the Variables value is obtained by deserializing the assignment (variables_derives adds Deserialize): reaches every value of the generated types except enum Other(..)',
                      'shapes: list lengths 0..2 (recursive inputs: 0..1), input recursion depth 2, strings concrete (quick)',
                      'operations: the catalogue under kgen/catalogue'],
-        jobs=6)
+        jobs=6, pre=attribute_part)
